@@ -17,12 +17,18 @@ from common import wire, show_str, VERIF, REPO
 
 logging.disable(logging.WARNING)
 
-# audited / leanchecker-replayed modules: the cheap ones (the 24 split files C08Char*/C08Pair*/C08Cls[A-H] hold only kernel evaluations;
-# they are imported by C08 and rebuilt by `lake build`; replaying them in one leanchecker process would need tens of GB)
-PROOF_MODULES = ['C08Defs', 'C08Cls', 'C08']
+# audited / leanchecker-replayed modules: the cheap ones (the 32 split files C08Char*/C08Pair*/C08Cls[A-H]/C08FChk[A-H] hold only
+# kernel evaluations; they are imported by C08 / C08F and rebuilt by `lake build`; replaying them in one leanchecker process would
+# need tens of GB).  C08F* = the statement for all strings (exact parse of the encoder-output grammar, renderer laws, induction).
+PROOF_MODULES = ['C08Defs', 'C08Cls', 'C08', 'C08FDefs', 'C08FReach', 'C08FParse', 'C08FRender', 'C08F']
 THEOREMS = ['Pylx.C08.C08_char', 'Pylx.C08.C08_pair', 'Pylx.C08.C08_reps_cover', 'Pylx.C08.C08_class_pairs',
             'Pylx.C08.C08_encode_chunks', 'Pylx.C08.C08_lift', 'Pylx.C08.C08_parbreak_false', 'Pylx.C08.C08_ligature_false',
-            'Pylx.C08.C08_none_false']
+            'Pylx.C08.C08_none_false',
+            # the statement for all strings (PylxProofs/C08F*.lean)
+            'Pylx.C08.Full.C08_full_proved', 'Pylx.C08.Full.C08_roundtrip', 'Pylx.C08.Full.C08_concat_proved',
+            'Pylx.C08.Full.C08_class_proved', 'Pylx.C08.Full.reachX_all', 'Pylx.C08.Full.doc_exact',
+            'Pylx.C08.Full.latexToText_doc', 'Pylx.C08.Full.chunk_good', 'Pylx.C08.Full.render_docs',
+            'Pylx.C08.Full.renderXList_app', 'Pylx.C08.Full.renderXList_mergeX', 'Pylx.C08.Full.par_fact']
 RULE = ('C08: LatexNodes2Text(strict_latex_spaces=pol).latex_to_text(UnicodeToLatexEncoder(replacement_latex_protection=scheme)'
         '.unicode_to_latex(s)) on: every character of the invertible alphabet alone and in the contexts aca, "c c", cc, 1c1, "c."; all '
         'ordered pairs of class representatives (classes = replacement shapes of C13_shapes + letter/digit/space/newline/punctuation) '
@@ -281,17 +287,25 @@ def extra_evidence():
             'c08_representatives': {k: ['U+%04X' % x for x in v] for k, v in D['reps'].items()}}
 
 LEVEL_TEXT = ('Theorems about the two models chained (Pylx.EncB.builtinCfg with the generated `defaults` table, then Pylx.L2T.latexToText with the '
-              'generated walker and text databases): C08_char — every one of the 1311 characters of the generated invertible alphabet, alone, '
-              'round-trips under each of the four brace-protection schemes and both whitespace policies (both models evaluated by the Lean '
-              'kernel on every character, so a table change that breaks a character no longer checks); C08_pair + C08_reps_cover — every ordered '
-              'pair of class representatives round-trips and every alphabet character has a representative of its class; C08_encode_chunks — '
-              'the encoder output is the concatenation of per-character chunks; C08_lift — the statement for all strings (C08_full) follows from '
-              'these and two named steps that are NOT proved (chunk independence of parser+renderer under concatenation, C08_concat_stmt; class '
-              'invariance of pairs, C08_class_stmt); C08_parbreak_false / C08_ligature_false / C08_none_false — the side conditions are needed. '
-              'The models are tied to UnicodeToLatexEncoder and LatexNodes2Text by comparing chunk lists and final texts on all generated '
-              'strings; the oracle evaluates text == NFC(s) on the implementation.')
-LEVEL_NOTE = ('C08_full itself is not proved: beyond single characters and representative pairs the claim rests on the oracle (random strings, '
-              'all class pairs) and on a design-time exhaustive run of all 1311^2 ordered pairs x 8 on the implementation; NFC is trusted; the '
-              'exception list is fixed data; the tie is differential testing; Lean kernel + propext/Classical.choice/Quot.sound')
-TECHNIQUE = ('Lean 4 proof (kernel evaluation of encoder, parser and renderer models over the generated alphabet and class-representative pairs; '
-             'induction over the string for the lift) + model-vs-implementation correspondence + round-trip oracle on the implementation')
+              'generated walker and text databases): C08_full_proved — EVERY string over the 1311 characters of the generated invertible alphabet '
+              'whose paragraph breaks are exactly "\\n\\n" (ParClean) round-trips under each of the four brace-protection schemes and both '
+              'whitespace policies (no bound on the length).  Proof: C08_encode_chunks (the encoder output is the concatenation of per-character '
+              'chunks); chunk_good (kernel evaluation over the whole alphabet: each chunk is the source of a document of the encoder-output grammar '
+              'that is well formed whatever follows, starts no ligature, is solid, and whose exact tree renders to the character from a fresh '
+              'converter state, leaving it fresh); reachX_all / doc_exact / latexToText_doc (exact prefix lemma: the tolerant parse of the source of '
+              'every well-formed document of that grammar is exactly its position-free tree, for every collector state; so latex_to_text of the '
+              'encoder output is the position-free renderer on that tree); renderXList_app / renderXList_mergeX / render_docs (the renderer loop is a '
+              'homomorphism on the concatenation because both policies switch between-macro-and-chars on, and merging chars nodes does not change '
+              'the text); par_fact (whitespace runs of a ParClean string render to themselves); induction over the string.  Also kept: C08_char, '
+              'C08_pair, C08_reps_cover (both models evaluated by the kernel on every character and every pair of class representatives, so a '
+              'table change that breaks a character no longer checks), C08_lift with its two former gaps now proved (C08_concat_proved, '
+              'C08_class_proved), and C08_parbreak_false / C08_ligature_false / C08_none_false — the side conditions are needed.  The models are '
+              'tied to UnicodeToLatexEncoder and LatexNodes2Text by comparing chunk lists and final texts on all generated strings; the oracle '
+              'evaluates text == NFC(s) on the implementation.')
+LEVEL_NOTE = ('C08_full is proved for the models (all strings over the alphabet, side condition ParClean shown necessary); NFC is trusted (the model '
+              'receives the normalised string); the exception list c08_noninvertible.json is fixed data; the tie between models and library is '
+              'differential testing; Lean kernel + propext/Classical.choice/Quot.sound')
+TECHNIQUE = ('Lean 4 proof (exact prefix lemma for the encoder-output grammar over every collector state, algebraic laws of the renderer loop, '
+             'kernel evaluation of the per-chunk facts over the generated alphabet, induction over the string; in addition kernel evaluation of '
+             'encoder, parser and renderer models on every character and every class-representative pair) + model-vs-implementation '
+             'correspondence + round-trip oracle on the implementation')
